@@ -31,6 +31,12 @@ Next == \/ \E k \in Keys, v \in Vals : DoPut(k, v)
 Spec == Init /\ [][Next]_vars
 
 (* invariants *)
+\* one derived record per state; all structural invariants in one formula
+InvAll == LET D == Derive(S) IN
+          /\ StructureOKD(S, D)                     \* C05
+          /\ SpaceOKD(S, D) /\ UsedFlagsOK(S)       \* C06
+          /\ FitsOKD(S, D)                          \* C09
+          /\ AbsMapD(S, D) = mem                    \* C01 / C08: the files hold the ideal map
 InvStructure == StructureOK(S)                      \* C05
 InvSpace     == SpaceOK(S) /\ UsedFlagsOK(S)        \* C06
 InvFits      == FitsOK(S)                           \* C09
